@@ -1,6 +1,134 @@
 import YaegiVerif.Common.Sexp
-/- Line-protocol front end for C18 (glue). Placeholder until the property's model exists. -/
+import YaegiVerif.Model.Extract
+import YaegiVerif.Spec.GoExtract
+import YaegiVerif.Generated.C18
+import YaegiVerif.Expected.C18
+/- Line-protocol front end for C18 (glue, not a proof obligation).
+   gen (provided…) newest (pkg importPath path name dest minor (tags…)) OBJ…
+        → (y FILE) (y0 FILE) (g FILE)      y: switches from the regenerated facts; y0: from the
+                                            hand-written expectation (the model the theorems are about)
+   OBJ    = (o name exported KIND)
+   KIND   = (const untyped CV) | (func generic) | (var) | (type generic)
+          | (iface generic embeds methodSet METHOD…) | (other)
+   CV     = (typed) | (int n) | (flt num den prec) | (str hex) | (bool b) | (cplx)
+   METHOD = (m name exported variadic (PARAM…) (PARAM…));  PARAM = (name typ () | (elem) (deps…))
+   FILE   = (file dest symkey tags (imports…) (vals E…) (typs E…) (wraps E…) (wtypes W…)) | (err msg)
+   E      = (e key form pkg name tok val);  W = (w name iface (m name ret guard (P…) (P…) (A…))…)
+   Strings are byte strings: every character of an atom stands for one byte. -/
 namespace YaegiVerif.Driver.C18
-open YaegiVerif
-def handle (_args : List Sexp) : String := "unimplemented"
+open YaegiVerif YaegiVerif.Extract
+
+def parseParam (s : Sexp) : Option Param :=
+  match s with
+  | .list [.atom n, .atom t, .list el, deps] => do
+    let ds ← deps.atoms?
+    let e ← match el with
+      | [] => some none
+      | [.atom x] => some (some x.toList)
+      | _ => none
+    some { name := n, typ := t.toList, elem := e, deps := ds }
+  | _ => none
+
+def parseMethod (s : Sexp) : Option Method :=
+  match s with
+  | .list [.atom "m", .atom n, ex, va, .list ps, .list rs] => do
+    let ex ← ex.bool?
+    let va ← va.bool?
+    let ps ← ps.mapM parseParam
+    let rs ← rs.mapM parseParam
+    some { name := n, exported := ex, variadic := va, params := ps, results := rs }
+  | _ => none
+
+def parseCV (s : Sexp) : Option (Option CVal) :=
+  match s with
+  | .list [.atom "typed"] => some none
+  | .list [.atom "int", n] => n.int?.map fun v => some (.int v)
+  | .list [.atom "flt", n, d, p] => do
+    let n ← n.int?
+    let d ← d.nat?
+    let p ← p.nat?
+    some (some (.flt n d p))
+  | .list [.atom "str", .atom h] => some (some (.str h))
+  | .list [.atom "bool", b] => b.bool?.map fun v => some (.bool v)
+  | .list [.atom "cplx"] => some (some .cplx)
+  | _ => none
+
+def parseKind (s : Sexp) : Option Kind :=
+  match s with
+  | .list [.atom "const", _, cv] => (parseCV cv).map Kind.const
+  | .list [.atom "func", g] => g.bool?.map Kind.func
+  | .list [.atom "var"] => some .var
+  | .list [.atom "type", g] => g.bool?.map Kind.typ
+  | .list (.atom "iface" :: g :: emb :: ms :: methods) => do
+    let g ← g.bool?
+    let emb ← emb.nat?
+    let ms ← ms.bool?
+    let methods ← methods.mapM parseMethod
+    some (.iface g emb ms methods)
+  | .list [.atom "other"] => some .other
+  | _ => none
+
+def parseObj (s : Sexp) : Option Obj :=
+  match s with
+  | .list [.atom "o", .atom n, ex, k] => do
+    let ex ← ex.bool?
+    let k ← parseKind k
+    some { name := n, exported := ex, kind := k }
+  | _ => none
+
+def hexDigit (n : Nat) : Char := if n < 10 then Char.ofNat (48 + n) else Char.ofNat (87 + n)
+
+/-- always-quoted atom; one character = one byte -/
+def q (s : String) : String :=
+  "\"" ++ String.join (s.toList.map fun c =>
+    let n := c.toNat
+    if n == 34 then "\\\"" else if n == 92 then "\\\\"
+    else if n < 32 || n > 126 then String.ofList ['\\', 'x', hexDigit ((n / 16) % 16), hexDigit (n % 16)]
+    else String.ofList [c]) ++ "\""
+
+def b (x : Bool) : String := if x then "1" else "0"
+
+def showTok : Tok → String
+  | .INT => "INT" | .FLOAT => "FLOAT" | .STRING => "STRING" | .COMPLEX => "COMPLEX"
+
+def showEntry (e : Entry) : String :=
+  let (form, pkg, name, tok, val) := match e.form with
+    | .value id => ("value", id.pkg, id.name, "", "")
+    | .addr id => ("addr", id.pkg, id.name, "", "")
+    | .typ id => ("type", id.pkg, id.name, "", "")
+    | .wrap t => ("wrap", "", t, "", "")
+    | .odd => ("odd", "", "", "", "")
+    | .lit t v => ("lit", "", "", showTok t, match v with
+      | .int n => toString n
+      | .rat n d => toString n ++ "/" ++ toString d
+      | .str s => s
+      | .cplx => "exact")
+  "(e " ++ " ".intercalate [q e.key, q form, q pkg, q name, q tok, q val] ++ ")"
+
+def showParams (ps : List WParam) : String :=
+  "(" ++ " ".intercalate (ps.map fun p => "(" ++ q p.name ++ " " ++ q (String.ofList p.typ) ++ " " ++ b p.variadic ++ ")") ++ ")"
+
+def showMethod (m : WMethod) : String :=
+  "(m " ++ q m.name ++ " " ++ b m.ret ++ " " ++ b m.guard ++ " " ++ showParams m.params ++ " " ++ showParams m.results ++ " (" ++
+    " ".intercalate (m.args.map fun a => "(" ++ q a.name ++ " " ++ b a.ellipsis ++ ")") ++ "))"
+
+def showFile (f : File) : String :=
+  let sec (tag : String) (es : List Entry) := "(" ++ " ".intercalate (tag :: es.map showEntry) ++ ")"
+  "(file " ++ q f.dest ++ " " ++ q f.symKey ++ " " ++ q f.tags ++ " (" ++ " ".intercalate (f.imports.map q) ++ ") " ++
+    sec "vals" f.vals ++ " " ++ sec "typs" f.typs ++ " " ++ sec "wraps" f.wraps ++ " (" ++
+    " ".intercalate ("wtypes" :: f.wtypes.map fun w =>
+      "(" ++ " ".intercalate (["w", q w.name, q w.iface] ++ w.methods.map showMethod) ++ ")") ++ "))"
+
+def handle (args : List Sexp) : String :=
+  match args with
+  | .atom "gen" :: provided :: newest :: .list [.atom "pkg", .atom ip, .atom path, .atom name, .atom dest, minor, tags] :: objs =>
+    (match provided.atoms?, newest.nat?, minor.nat?, tags.atoms?, objs.mapM parseObj with
+     | some prov, some newest, some minor, some tags, some objs =>
+       let p : Pkg := { importPath := ip, path := path, name := name, dest := dest, minor := minor, tags := tags, objs := objs }
+       let run (K : Knobs) : String := if formatFails K p then "(err \"extract\")" else showFile (genY K p)
+       "(y " ++ run (knobsOf Generated.C18.facts) ++ ") (y0 " ++ run (knobsOf Expected.C18.facts) ++
+         ") (g " ++ showFile (Spec.wrapper prov newest p) ++ ")"
+     | _, _, _, _, _ => "bad-op")
+  | _ => "bad-op"
+
 end YaegiVerif.Driver.C18
